@@ -112,7 +112,7 @@ func checkC17(repo, tier string, workers int, solverKind string, seed int) int {
 			desc := fmt.Sprintf("%s || %s: unordered conflicting accesses to %s (%s in %s, %s in %s)", traces[i].body, traces[j].body, race.A.Loc, race.A.Kind, race.A.Fn, race.B.Kind, race.B.Fn)
 			if confirmed {
 				violations++
-				path := filepath.Join(vd, "replays", id, fmt.Sprintf("race-%d.json", violations))
+				path := filepath.Join(outDir(vd), "replays", id, fmt.Sprintf("race-%d.json", violations))
 				os.MkdirAll(filepath.Dir(path), 0o755)
 				b, _ := json.MarshalIndent(map[string]interface{}{"kind": "race", "threads": []string{traces[i].body, traces[j].body}, "solver_witness": race, "race_detector_output": tail(out, 3000)}, "", " ")
 				os.WriteFile(path, b, 0o644)
@@ -147,8 +147,8 @@ func checkC17(repo, tier string, workers int, solverKind string, seed int) int {
 		"wall_s":      time.Since(t0).Seconds(), "violations": violations,
 	}
 	eb, _ := json.MarshalIndent(ev, "", " ")
-	os.MkdirAll(filepath.Join(vd, "evidence"), 0o755)
-	os.WriteFile(filepath.Join(vd, "evidence", id+".json"), eb, 0o644)
+	os.MkdirAll(filepath.Join(outDir(vd), "evidence"), 0o755)
+	os.WriteFile(filepath.Join(outDir(vd), "evidence", id+".json"), eb, 0o644)
 	fmt.Printf("property=%s tier=%s paths=%d traces=%d pairs=%d queries=%d violations=%d wall=%.1fs\n", id, tier, paths, len(traces), pairs, queries, violations, time.Since(t0).Seconds())
 	if violations > 0 {
 		return 1
@@ -158,7 +158,7 @@ func checkC17(repo, tier string, workers int, solverKind string, seed int) int {
 
 // nativeRace runs the two thread bodies concurrently under the race detector.
 func nativeRace(repo, vd, a, b string) (bool, string) {
-	workDir := filepath.Join(vd, "replays", "C17", fmt.Sprintf("run-%d", os.Getpid()))
+	workDir := filepath.Join(outDir(vd), "replays", "C17", fmt.Sprintf("run-%d", os.Getpid()))
 	os.MkdirAll(workDir, 0o755)
 	defer os.RemoveAll(workDir)
 	repl := map[string]string{}
